@@ -23,6 +23,7 @@ SIGS = {
     "CCX": "qqq",
     "U3r": "qqq",
     "Nop": "q",
+    "Hs": "q",
 }
 NO_UNITARY = {"Nop"}
 BUSY = ("prepare_all", "measure_all")
@@ -76,6 +77,12 @@ def _sx():
 
 def _h():
     return np.array([[1, 1], [1, -1]], dtype=complex) / math.sqrt(2)
+
+
+def _hs():
+    # a Hadamard typed in with eight digits (norm^2 grows by 2.7e-8 per application): slightly non-unitary, which the library
+    # tolerates (it clips and renormalises the probabilities, with a warning)
+    return np.array([[0.70710679, 0.70710679], [0.70710679, -0.70710679]], dtype=complex)
 
 
 def _cx():
@@ -148,6 +155,7 @@ _MATS = {
     "Rk": _rk,
     "CCX": _ccx,
     "U3r": _u3r,
+    "Hs": _hs,
 }
 
 
